@@ -13,13 +13,16 @@
 (*           own disjoint header names), nothing else is written.          *)
 (* Extract = left fold of the context through all parts in order.          *)
 (*                                                                         *)
-(* The parts are abstract: a trace part whose header group is "valid"      *)
-(* installs the span context carried by ITS header (tcS, b3S, jgS: three   *)
-(* different identities), "absent" / "invalid" leave the context as it is  *)
-(* (pinned by C09/C16); bag installs the baggage of the header when valid. *)
-(* b3 and b3m share one header-group status (both absent, both valid with  *)
-(* the same identity, both invalid), so that the single/multi precedence   *)
-(* (C16) is irrelevant here.                                               *)
+(* The parts are abstract: a trace part that UNDERSTANDS a valid header of  *)
+(* the carrier installs the span context carried by that header (tcS, b3sS, *)
+(* b3xS, jgS: different identities); absent / invalid headers leave the     *)
+(* context as it is (pinned by C09/C16); bag installs the baggage of the    *)
+(* header when valid.  The carrier is NOT assumed to come from the same     *)
+(* composite's Inject: every wire format is present/absent independently of *)
+(* the configured parts.  Both B3 parts understand BOTH B3 formats (C16:    *)
+(* the single b3 header takes precedence over X-B3-x headers), although each      *)
+(* injects - and lists in Fields() - only its own.  The one carrier shape   *)
+(* whose reading C16 leaves open (b3 invalid, X-B3-x valid) is not used.    *)
 (***************************************************************************)
 EXTENDS Naturals, Sequences, FiniteSets, TLC, Json
 
@@ -33,18 +36,24 @@ Range(s) == {s[i] : i \in 1..Len(s)}
 
 (* ---- extract ------------------------------------------------------------ *)
 Status == {"absent", "valid", "invalid"}
-Group(p) == IF p \in {"b3", "b3m"} THEN "b3g" ELSE p
-Groups == {"tc", "b3g", "jg", "bag"}
-SpanOf(p) == CASE p = "tc" -> "tcS" [] p \in {"b3", "b3m"} -> "b3S" [] p = "jg" -> "jgS"
+\* header groups of the carrier: traceparent(+tracestate), b3 (single), X-B3-x (multi), uber-trace-id, baggage
+Groups == {"tc", "b3s", "b3x", "jg", "bag"}
+\* which identity a part takes from the carrier ("none": nothing it understands is valid)
+B3Sees(car) == IF car["b3s"] # "absent" THEN (IF car["b3s"] = "valid" THEN "b3sS" ELSE "none")
+               ELSE IF car["b3x"] = "valid" THEN "b3xS" ELSE "none"
+Sees(p, car) == CASE p \in {"b3", "b3m"} -> B3Sees(car)
+                  [] p = "tc"  -> IF car["tc"] = "valid" THEN "tcS" ELSE "none"
+                  [] p = "jg"  -> IF car["jg"] = "valid" THEN "jgS" ELSE "none"
+                  [] p = "bag" -> IF car["bag"] = "valid" THEN "hdrB" ELSE "none"
 PartExtract(p, car, ctx) ==
-  IF car[Group(p)] # "valid" THEN ctx
-  ELSE IF p = "bag" THEN [ctx EXCEPT !.bag = "hdrB"] ELSE [ctx EXCEPT !.span = SpanOf(p)]
+  IF Sees(p, car) = "none" THEN ctx
+  ELSE IF p = "bag" THEN [ctx EXCEPT !.bag = "hdrB"] ELSE [ctx EXCEPT !.span = Sees(p, car)]
 RECURSIVE FoldExtract(_, _, _, _)
 FoldExtract(parts, i, car, ctx) ==
   IF i > Len(parts) THEN ctx ELSE FoldExtract(parts, i + 1, car, PartExtract(parts[i], car, ctx))
 CompositeExtract(parts, car, ctx) == FoldExtract(parts, 1, car, ctx)
 
-Carriers == [Groups -> Status]
+Carriers == {c \in [Groups -> Status] : ~(c["b3s"] = "invalid" /\ c["b3x"] = "valid")}
 Ctx0s == {[span |-> "none", bag |-> "none"], [span |-> "S0", bag |-> "B0"]}
 
 (* ---- inject ------------------------------------------------------------- *)
@@ -89,17 +98,22 @@ Next == FALSE /\ UNCHANGED vars
 Spec == Init /\ [][Next]_vars
 
 (* ---- laws ---------------------------------------------------------------- *)
-\* the last configured trace part with a valid header decides the span; earlier ones are overwritten
-ValidIdx(parts, car, S) == {i \in 1..Len(parts) : parts[i] \in S /\ car[Group(parts[i])] = "valid"}
+\* the last configured trace part that understands a valid header decides the span; earlier ones are overwritten
+ValidIdx(parts, car, S) == {i \in 1..Len(parts) : parts[i] \in S /\ Sees(parts[i], car) # "none"}
 TraceParts == {"tc", "b3", "b3m", "jg"}
 MaxI(S) == CHOOSE x \in S : \A y \in S : x >= y
 LastValidWins == sc.op = "extract" =>
   LET vi == ValidIdx(sc.parts, sc.car, TraceParts) IN
-  /\ sc.exp.span = IF vi = {} THEN sc.ctx0.span ELSE SpanOf(sc.parts[MaxI(vi)])
+  /\ sc.exp.span = IF vi = {} THEN sc.ctx0.span ELSE Sees(sc.parts[MaxI(vi)], sc.car)
   /\ sc.exp.bag = IF ValidIdx(sc.parts, sc.car, {"bag"}) = {} THEN sc.ctx0.bag ELSE "hdrB"
+\* a part is applied to every header it understands, not only to the ones it injects itself: a lone B3 part
+\* (either one) facing the OTHER B3 format alone installs that identity
+CrossFormatApplied == (sc.op = "extract" /\ Len(sc.parts) = 1 /\ sc.parts[1] \in {"b3", "b3m"}) =>
+  /\ (sc.car["b3s"] = "absent" /\ sc.car["b3x"] = "valid") => sc.exp.span = "b3xS"
+  /\ sc.car["b3s"] = "valid" => sc.exp.span = "b3sS"
 EmptyIsIdentity == (sc.op = "extract" /\ sc.parts = <<>>) => sc.exp = sc.ctx0
 \* nothing valid for the configured parts: the caller's context comes back
-NothingValidUntouched == (sc.op = "extract" /\ \A i \in 1..Len(sc.parts) : sc.car[Group(sc.parts[i])] # "valid")
+NothingValidUntouched == (sc.op = "extract" /\ \A i \in 1..Len(sc.parts) : Sees(sc.parts[i], sc.car) = "none")
                             => sc.exp = sc.ctx0
 \* inject: exactly the union of what the parts write, each header owned by a configured part
 EveryPartWrote == sc.op = "inject" =>
